@@ -53,12 +53,18 @@ SPEC = {
             "py_tx_checked": 800, "py_pre_v5_txid_sha256d_checked": 400, "py_v5_v6_layout_checked": 200, "py_headers_checked": 300,
         },
         "thorough": {
-            "evaluations": 8_000_000, "distinct_nontrivial": 5000,
-            "arb_tx_values": 800, "mutants_rejected": 5_000_000, "mutants_accepted": 300_000,
-            "shape_compactsize_64k_boundary": 100, "shape_script_64k": 100, "shape_with_ironwood": 1500,
-            "pos_v6_nu6_3": 3000, "pos_v5_nu5": 3000, "pos_v4_sapling": 3000, "pos_v1_sprout": 3000,
+            "evaluations": 4_000_000, "distinct_nontrivial": 4000,
+            "arb_tx_values": 700, "mutants_rejected": 2_000_000, "mutants_accepted": 300_000,
+            "op_truncate": 400_000, "op_bitflip": 300_000, "op_cs-noncanonical": 300_000, "op_count-huge": 250_000,
+            "op_amount-out-of-range": 150_000, "op_branch-swap": 25_000, "op_flags-reserved": 10_000,
+            "shape_compactsize_253_boundary": 1500, "shape_compactsize_64k_boundary": 60, "shape_script_64k": 60,
+            "shape_with_joinsplits": 2500, "shape_with_orchard": 3000, "shape_with_ironwood": 500, "shape_coinbase": 2000,
+            "shape_all_bundles_empty": 2000, "shape_sapling_spends_only": 1500, "shape_sapling_outputs_only": 1500,
+            "pos_v6_nu6_3": 1200, "pos_v5_nu5": 1200, "pos_v5_nu6_3": 1200, "pos_v4_sapling": 1200, "pos_v4_nu6_3": 1200,
+            "pos_v3_overwinter": 1200, "pos_v1_sprout": 1200, "pos_v2_sprout": 1200, "pos_v2hi_sprout": 1200,
             "header_cases": 4000, "compactsize_max_vector_accepted": 1, "oversized_compactsize_with_data_rejected": 1,
-            "py_tx_checked": 15000, "py_headers_checked": 2500,
+            "enc5_compactsize_values": 16, "enc5_combinator_rounds": 16,
+            "py_tx_checked": 15000, "py_pre_v5_txid_sha256d_checked": 8000, "py_v5_v6_layout_checked": 4000, "py_headers_checked": 2500,
         },
     },
     "manifest": {
@@ -81,15 +87,17 @@ def _check_events(path):
     import sys
     sys.path.insert(0, os.path.dirname(os.path.dirname(os.path.abspath(__file__))))
     from pyref import txlayout, blockhdr
-    out = {"counts": {}, "viol": [], "broken": []}
+    out = {"counts": {}, "viol": {}, "broken": []}
 
     def cnt(k, n=1):
         out["counts"][k] = out["counts"].get(k, 0) + n
 
     def viol(sig, detail, ev):
-        if sum(1 for v in out["viol"] if v[0] == sig) < MAX_VIOL_PER_SIG:
+        e = out["viol"].setdefault(sig, {"count": 0, "examples": []})
+        e["count"] += 1
+        if len(e["examples"]) < MAX_VIOL_PER_SIG:
             hexs = ev.get("hex", "")
-            out["viol"].append((sig, detail, {"event": {k: v for k, v in ev.items() if k != "hex"}, "input_hex": hexs[:40000]}))
+            e["examples"].append({"detail": detail, "replay": {"event": {k: v for k, v in ev.items() if k != "hex"}, "input_hex": hexs[:40000]}})
         cnt("py_violations")
 
     if not path or not os.path.exists(path):
@@ -151,8 +159,8 @@ def post(shards, fold, tier, seed):
     for r in results:
         for k, v in r["counts"].items():
             fold.count(k, v)
-        for sig, detail, replay in r["viol"]:
-            fold.violation(sig, [{"detail": detail, "replay": replay}])
+        for sig, e in r["viol"].items():
+            fold.violation(sig, e["examples"], e["count"])
         for b in r["broken"]:
             if b not in fold.broken:
                 fold.broken.append(b)
